@@ -2,8 +2,8 @@
    Only property theorems (closed by `exact`), non-vacuity examples, Print Assumptions. *)
 From Coq Require Import Reals QArith Qreals List ZArith.
 From Zepid Require Import Base.QSum Base.QUtil Spec.Measures Model.Frames Proofs.FramesProofs
-     GenProofs.GenProofs_calc Proofs.MeasuresBridge.
-From ZepidGen Require Import Gen_calc_R.
+     GenProofs.GenProofs_calc Proofs.MeasuresBridge GenProofs.GenProofs_basefit.
+From ZepidGen Require Import Gen_basefit_Q Gen_calc_R.
 Import ListNotations.
 
 Section C07.
@@ -95,6 +95,23 @@ Theorem C07_missing_counts : forall rows,
   (miss_e rows + miss_d rows + miss_ed rows + Qlen (filter complete rows) == Qlen rows)%Q.
 Proof. exact missing_counts_partition. Qed.
 
+(* --- the cross-tabulation lines of the six classes in the CURRENT source of zepid/base.py (translated on every run): which
+   row mask is counted (or which person-time summed) for which parameter of the calculator, and the missing-data counts *)
+Theorem C07_src_base_tables : forall rows rf l,
+  base_rr_call_Q rows rf l = table4 rows rf l /\ base_rd_call_Q rows rf l = table4 rows rf l /\
+  base_nnt_call_Q rows rf l = table4 rows rf l /\ base_or_call_Q rows rf l = table4 rows rf l.
+Proof. exact gen_base_tables. Qed.
+Theorem C07_src_base_rate_tables : forall rows rf l,
+  base_irr_call_Q rows rf l = (ncell rows l true, ptime rows l, ncell rows rf true, ptime rows rf) /\
+  base_ird_call_Q rows rf l = (ncell rows l true, ptime rows l, ncell rows rf true, ptime rows rf).
+Proof. exact gen_base_rate_tables. Qed.
+Theorem C07_src_base_missing_counts : forall rows,
+  Forall2 Qeq (base_rr_missing_Q rows) (missing_counts rows) /\
+  base_rd_missing_Q rows = base_rr_missing_Q rows /\ base_nnt_missing_Q rows = base_rr_missing_Q rows /\
+  base_or_missing_Q rows = base_rr_missing_Q rows /\ base_irr_missing_Q rows = base_rr_missing_Q rows /\
+  base_ird_missing_Q rows = base_rr_missing_Q rows.
+Proof. exact (fun rows => conj (gen_base_missing_rr rows) (gen_base_missing rows)). Qed.
+
 (* non-vacuity *)
 Example C07_nonvacuous : pos4 45 55 21 79 /\ RD 45 55 21 79 <> 0.
 Proof. unfold pos4, RD. repeat split; try Lra.lra. Qed.
@@ -124,3 +141,6 @@ Print Assumptions C07_transpose_or.
 Print Assumptions C07_spec_bridge.
 Print Assumptions C07_frames_ignore_missing.
 Print Assumptions C07_missing_counts.
+Print Assumptions C07_src_base_tables.
+Print Assumptions C07_src_base_rate_tables.
+Print Assumptions C07_src_base_missing_counts.
